@@ -61,6 +61,7 @@ func publish(pubSocket *zmq4.Socket, update ClientUpdate, message []byte) {
 	// Send the 2-part message to all subscribers (clients).
 	// If there are errors, retry up to `maxSendAttempts` times with a sleep between.
 	fullmessage := [][]byte{[]byte(tag), message}
+	verifPoint("publish", tag, message)
 	const maxSendAttempts = 5
 	var err error
 	for iter := 0; iter < maxSendAttempts; iter++ {
@@ -195,11 +196,13 @@ func saveState(lastMessages map[string]interface{}) {
 	mainname := viper.ConfigFileUsed()
 	tmpname := strings.Replace(mainname, ".yaml", ".tmp.yaml", 1)
 	bakname := mainname + ".bak"
+	verifPoint("saveState:start", mainname, tmpname, bakname)
 	err := viper.WriteConfigAs(tmpname)
 	if err != nil {
 		log.Println("Could not store config file ", tmpname, ": ", err)
 		return
 	}
+	verifPoint("saveState:tmp-written")
 
 	// Move old config file to backup and new file to standard config name.
 	err = os.Remove(bakname)
@@ -207,11 +210,13 @@ func saveState(lastMessages map[string]interface{}) {
 		log.Println("Could not remove backup file ", bakname, " even though it exists: ", err)
 		return
 	}
+	verifPoint("saveState:bak-removed")
 	err = os.Rename(mainname, bakname)
 	if err != nil && !os.IsNotExist(err) {
 		log.Println("Could not save backup file: ", err)
 		return
 	}
+	verifPoint("saveState:backup-made")
 	err = os.Rename(tmpname, mainname)
 	if err != nil {
 		log.Printf("Could not update dastard config file %s", mainname)
